@@ -123,7 +123,7 @@ func execStake(c *simkit.Ctx) bool {
 		}
 	}
 	if r.prop == "C40" {
-		return e.spy.failedNested > 0
+		return e.spy.okTxAfterFailedWrites > 0
 	}
 	return r.sawWaiting && r.keyLeft
 }
